@@ -7,7 +7,7 @@ META = {
     'level': 'proof',
     'rule': 'seeded random deterministic TMs (1-4 working states, partial delta, left moves at cell 0, blank writes, loops, '
             'halting initial state) x all words of length <=3 x budgets {0,1,2,3,5,20,1000}; non-trivial = run of >=2 steps '
-            'or a verdict that changes with the budget; distinct by (machine, word); also purposeful machines run on words of length up to 12 (erase and walk back over the erased cells, a counter in cell 0 driven by left moves at the left end, a^n b^n, palindromes, binary increment, quadratic sweeps)',
+            'or a verdict that changes with the budget; distinct by (machine, word); also purposeful machines run on words of length up to 300 (runs of 300-600 steps that revisit (state, head) pairs) (erase and walk back over the erased cells, a counter in cell 0 driven by left moves at the left end, a^n b^n, palindromes, binary increment, quadratic sweeps)',
     'assumptions': ['TM.valid (constructor) ; directions are L/R ; words over Sigma'],
     'trusted_base': ['Spec: Gamba/Spec/TM.lean (Step, stepN, HaltsAt)'],
 }
